@@ -6,7 +6,7 @@ import re
 from ..core import build, driver
 from ..core.explore import Check
 from ..lang import corpus, paths, strlit
-from .c04 import program_for
+from .c04 import program_for, SPLIT_POSITIONS, split_ok
 
 POSITIONS = ["print", "list", "mapkey", "dead", "fnbody"]
 
@@ -46,6 +46,7 @@ class C18(Check):
         stale = [("stale", a, b, w) for a in single for b in single if a != b for w in ("binary", "text")]
         ls = [("L0-opcode-names", ops), ("L0b-stale-outputs-of-an-earlier-revision", stale),
               ("L1-strings<=2-all-positions", list(strings(0, 2, POSITIONS))),
+              ("L1s-two-literals-in-one-program(strings-of-length-2-cut-in-two)", [c for c in strings(2, 2, [q for q in SPLIT_POSITIONS]) if split_ok(strlit.decode(c[1]))]),
               ("L2-examples", ex),
               ("L2b-programs-of-the-repository-test-suite", [("test", t[0]) for t in corpus.test_projects() if len(t[1]) == 1]),
               ("L3-generated-corpus", [("gen", nm) for nm in gencorpus.names(tier) if not nm.startswith("c11")]),
